@@ -77,7 +77,14 @@ func genC10(t *rapid.T) FaultCase {
 	default:
 		faults = []string{"recv-error", "recv-error", "recv-error", "enospc", "none"}
 	}
+	if fc.Client == "ext-reader" || fc.Client == "ext-create" {
+		faults = append(faults, "conn-break", "conn-break")
+	}
 	fc.Fault = rapid.SampledFrom(faults).Draw(t, "fault")
+	if fc.Fault == "conn-break" {
+		fc.InTx = false
+		fc.Linger = rapid.SampledFrom([]int{0, 1, 3}).Draw(t, "linger")
+	}
 	fc.Pos = genPos(t, fc.Len)
 	if fc.Fault == "reader-error" {
 		fc.SrcErr = rapid.SampledFrom([]string{"", "", "unexpected-eof", "unexpected-eof", "wrapped-eof", "canceled", "deadline"}).Draw(t, "srcErr")
